@@ -121,7 +121,7 @@ class RetargetFirstHeight:
 
 
 @contract("btclib.block.proof_of_work.next_bits",
-          types=dict(bits="bytes[4]", first_block_time="datetime", last_block_time="datetime"), props="C17", tier="thorough")
+          types=dict(bits="bytes[4]", first_block_time="datetime", last_block_time="datetime"), props="C17", tier="deep")
 class NextBits:
     """retargeting against Core's CalculateNextWorkRequired on arith_uint256 (mainnet limit)"""
 
